@@ -719,6 +719,13 @@ def run(ctx):
     c09.r09c(ctx)
     for o in ctx.obligations[before:]:
         o.rule = 'R01h'
+    # R01k: width sharing agrees with width derivation (shared with C09 R09e): a width-following
+    # op cut out of its group leaves the layer that feeds the network output with a trainable
+    # mask, and export removes output channels
+    before = len(ctx.obligations)
+    c09.r09e(ctx)
+    for o in ctx.obligations[before:]:
+        o.rule = 'R01k'
     ctx.assume('torch semantics: boolean-mask indexing on one axis keeps the other axes; '
                'broadcasting is right-aligned; weight axes are (out, in/groups, *kernel) for '
                'convolutions and (out, in) for Linear')
